@@ -104,6 +104,13 @@ def stage1(rng, n):
             ops.append(f"polyfill {res} 0 {bp}")
         s = [rng.randrange(1, 256) for _ in range(rng.randrange(0, 22))]
         ops.append("fromstr " + ("".join("%02x" % b for b in s) if s else "-"))
+        # positions around the exact child count (out-of-range positions must give E_DOMAIN, never a cell)
+        pr = rng.randrange(0, 14)
+        par = gen.mkcell(pr, rng.choice(gen.PENT), [0] * pr) if rng.random() < 0.6 else gen.rand_cell(rng, res=pr)
+        cr = rng.randrange(pr, 16)
+        size = gen.children_size(par, cr)
+        for dlt in (-1, 0, 1, 2, 7, rng.randrange(0, 60), rng.randrange(0, max(1, size // 5))):
+            ops.append(f"pos2cell {size + dlt} {gen.hx(par)} {cr}")
     return ops
 
 
@@ -177,6 +184,10 @@ def expected_codes(op):
             return "err 15"
         if t[0] == "c2v" and not (0 <= int(t[2]) <= 5):
             return "err 2"
+        if t[0] == "pos2cell" and gen.layout_spec(int(t[2], 16)):
+            par, cr, pos = int(t[2], 16), int(t[3]), int(t[1])
+            if ((par >> 52) & 15) <= cr <= 15 and (pos < 0 or pos >= gen.children_size(par, cr)):
+                return "err 2"
     except (ValueError, IndexError):
         return None
     return None
